@@ -126,9 +126,10 @@ pub fn run(part: &mut Part) {
                         if q { 3 } else { 4 },
                     ),
                     all_seeds_prof(a_full(), 2, q),
+                    prof("queues a,b created x special payload sizes", vec![seed_ab()], a_sizes(), if q { 3 } else { 4 }),
                 ]
             } else {
-                vec![prof(
+                vec![prof("queues a,b created x special payload sizes", vec![seed_ab()], a_sizes(), if q { 2 } else { 3 }), prof(
                     "empty+structural x A_full",
                     {
                         let mut s = vec![seed_empty()];
@@ -162,12 +163,13 @@ pub fn run(part: &mut Part) {
                     prof("structural seeds x A_roll", structural_seeds(), a_roll(), if q { 3 } else { 4 }),
                     prof("cursor near file end / all-dead file x A_roll", file_end, a_roll(), if q { 3 } else { 4 }),
                     all_seeds_prof(a_roll(), if q { 2 } else { 3 }, q),
+                    prof("queues a,b created x special payload sizes", vec![seed_ab()], a_sizes(), if q { 3 } else { 4 }),
                 ]
             } else {
                 let mut s = vec![seed_empty()];
                 s.extend(structural_seeds());
                 s.extend(file_end);
-                vec![prof("empty+structural+file-end x A_roll", s, a_roll(), if q { 2 } else { 3 })]
+                vec![prof("empty+structural+file-end x A_roll", s, a_roll(), if q { 2 } else { 3 }), prof("queues a,b created x special payload sizes", vec![seed_ab()], a_sizes(), if q { 2 } else { 3 })]
             };
             let mons: Vec<Monitors> = seeds_hash
                 .iter()
@@ -313,7 +315,7 @@ pub fn run(part: &mut Part) {
             alpha.push(Op::app(QA, Pos::Retry, Sz::S3));
             alpha.push(Op::Append { q: QA, pos: Pos::Auto, sizes: vec![] });
             let profiles = if TINY {
-                vec![prof("cursor + GC seeds x (A_roll + no-op shapes)", seeds, alpha.clone(), if q { 3 } else { 5 }), all_seeds_prof(alpha, if q { 2 } else { 3 }, q)]
+                vec![prof("cursor + GC seeds x (A_roll + no-op shapes)", seeds, alpha.clone(), if q { 3 } else { 5 }), all_seeds_prof(alpha, if q { 2 } else { 3 }, q), prof("queues a,b created x special payload sizes", vec![seed_ab()], a_sizes(), if q { 2 } else { 3 })]
             } else {
                 vec![prof("cursor + GC seeds x (A_roll + no-op shapes)", seeds, alpha, if q { 2 } else { 3 })]
             };
